@@ -1,3 +1,4 @@
+import TmcgProps.C09PrimeGen
 import TmcgProps.C09Arith2
 import TmcgProofs.Rabin
 import TmcgProofs.PowmEq
